@@ -1,1 +1,447 @@
-/-! Property theorems for C14 (stub: not built yet). -/
+import UsualProofs.C14.Str
+import UsualProofs.C14.Mem
+import UsualProofs.C14.Path
+import UsualProofs.C14.Num
+import UsualProofs.C14.Bits
+import UsualProofs.C14.Inet
+import UsualProofs.C14.Inet6
+import UsualProofs.C14.Libc
+import UsualProofs.C14.Fnmatch
+/-!
+# C14 — compat replacements behave exactly like the platform or specified functions
+
+One `…_spec` theorem per replacement: the executable model of the compat C code
+(`lean/Usual/C14/*.lean`, tied to the code by the forced-compat differential run of
+`checks/C14.py`) satisfies the BSD/POSIX text, stated as a predicate on return value and on the
+COMPLETE destination buffer ("same writes": the buffer equals the specified one everywhere and
+keeps its length, i.e. nothing outside is touched).  Every theorem is followed by an `example`
+instantiating it on a non-trivial value.
+
+Partial (named `…_partial`, full statement in the comment next to it):
+* `fnmatch_sound_complete` is about the *reference* matcher; the single-retry loop `wfn` (mirror
+  of `wfnmatch`) is compared with it by the harness, not proved equal; with FNM_PERIOD the mirror
+  is the specification;
+* `pton6_spec_partial`: result shape + concrete forms, no full grammar theorem.
+-/
+namespace UsualProps.C14
+open Usual.C14 UsualProofs.C14
+
+/-! ## strlcpy / strlcat (OpenBSD) -/
+
+/-- `strlcpy(dst, src, n)` with `n ≤ |dst|`: returns `strlen(src)`; for `n > 0` stores
+    `min(len, n-1)` bytes of `src` and a NUL and leaves every other byte of `dst` alone; for
+    `n = 0` stores nothing.  The buffer keeps its length (no store outside). -/
+theorem strlcpy_spec (dst src : Bytes) (n : Nat) (hn : n ≤ dst.length) :
+    (strlcpy dst src n).1 = (cstr src).length ∧
+    (strlcpy dst src n).2.length = dst.length ∧
+    (n = 0 → (strlcpy dst src n).2 = dst) ∧
+    (0 < n → (strlcpy dst src n).2 =
+      (cstr src).take (n - 1) ++ [0] ++ dst.drop (min (cstr src).length (n - 1) + 1)) :=
+  ⟨strlcpy_ret dst src n, strlcpy_length dst src n hn,
+   fun h => by subst h; exact strlcpy_zero dst src, strlcpy_buf dst src n⟩
+
+example : strlcpy [0xAA, 0xAA, 0xAA, 0xAA] [97, 98, 99, 100, 0] 3 = (4, [97, 98, 0, 0xAA]) := by decide
+
+/-- `strlcat(dst, src, n)` with `n ≤ |dst|`: returns `min(n, strlen(dst)) + strlen(src)`; if
+    `dst` holds a string shorter than `n` the string is kept, as much of `src` as fits in
+    `n - 1 - strlen(dst)` bytes is appended and NUL-terminated, the rest of the buffer is
+    untouched; if there is no NUL in the first `n` bytes nothing is written. -/
+theorem strlcat_spec (dst src : Bytes) (n : Nat) (hn : n ≤ dst.length) :
+    (strlcat dst src n).1 = min n (cstr dst).length + (cstr src).length ∧
+    (strlcat dst src n).2.length = dst.length ∧
+    (n ≤ (cstr dst).length → (strlcat dst src n).2 = dst) ∧
+    ((cstr dst).length < n → (strlcat dst src n).2 =
+      cstr dst ++ (cstr src).take (n - (cstr dst).length - 1) ++ [0] ++
+        dst.drop ((cstr dst).length + min (cstr src).length (n - (cstr dst).length - 1) + 1)) :=
+  ⟨strlcat_ret dst src n, strlcat_length dst src n hn, strlcat_full dst src n hn,
+   strlcat_buf dst src n⟩
+
+example : strlcat [97, 0, 0xAA, 0xAA, 0xAA] [98, 99, 100, 0] 4 = (4, [97, 98, 99, 0, 0xAA]) := by decide
+
+/-- `strpcpy`: the same stores as `strlcpy`; returns the offset of the terminator when the
+    whole string fit, NULL on truncation (or `n = 0`) -/
+theorem strpcpy_spec (dst src : Bytes) (n : Nat) :
+    strpcpy dst src n =
+      (if (cstr src).length < n then some (cstr src).length else none, (strlcpy dst src n).2) :=
+  strpcpy_eq dst src n
+
+example : strpcpy [0xAA, 0xAA, 0xAA] [97, 98, 99, 0] 3 = (none, [97, 98, 0]) := by decide
+
+/-- `strpcat`: the same stores as `strlcat`; the end of the result when nothing was cut -/
+theorem strpcat_spec (dst src : Bytes) (n : Nat) :
+    strpcat dst src n =
+      (if (cstr dst).length < n ∧ (cstr dst).length + (cstr src).length < n
+        then some ((cstr dst).length + (cstr src).length) else none,
+       (strlcat dst src n).2) :=
+  strpcat_eq dst src n
+
+example : strpcat [97, 0, 0xAA, 0xAA] [98, 99, 0] 4 = (some 3, [97, 98, 99, 0]) := by decide
+
+/-- `strnlen(s, maxlen) = min(maxlen, strlen(s))` -/
+theorem strnlen_spec (s : Bytes) (maxlen : Nat) : strnlen s maxlen = min maxlen (cstr s).length :=
+  strnlen_eq s maxlen
+
+example : strnlen [97, 98, 99, 0, 100] 2 = 2 ∧ strnlen [97, 98, 99, 0, 100] 9 = 3 := by decide
+
+/-- `mempcpy` copies exactly `n` bytes and returns `dst + n` -/
+theorem mempcpy_spec (dst src : Bytes) (n : Nat) (hs : n ≤ src.length) (hd : n ≤ dst.length) :
+    (mempcpy dst src n).1 = n ∧ (mempcpy dst src n).2 = src.take n ++ dst.drop n ∧
+    (mempcpy dst src n).2.length = dst.length := by
+  refine ⟨rfl, mempcpy_buf dst src n hs, ?_⟩
+  rw [mempcpy_buf dst src n hs]; simp; omega
+
+example : mempcpy [1, 2, 3, 4] [9, 8, 7] 2 = (2, [9, 8, 3, 4]) := by decide
+
+/-- `strsep(&s, delim)` on a terminated buffer: exactly one byte is stored (a NUL at the first
+    delimiter, or over the terminator), the token is the part of the string before its first
+    delimiter and contains none, `*stringp` becomes NULL iff there was no delimiter and otherwise
+    points just past the delimiter found. -/
+theorem strsep_spec (s delim : Bytes) (hterm : 0 ∈ s) :
+    (strsep s delim).2 = s.set (strcspn s delim) 0 ∧
+    cstr (strsep s delim).2 = (cstr s).take (strcspn s delim) ∧
+    (∀ b ∈ (cstr s).take (strcspn s delim), ¬ b ∈ cstr delim) ∧
+    ((strsep s delim).1 = none ↔ strcspn s delim = (cstr s).length) ∧
+    (strcspn s delim < (cstr s).length →
+      (strsep s delim).1 = some (strcspn s delim + 1) ∧
+      ∃ d, (cstr s)[strcspn s delim]? = some d ∧ d ∈ cstr delim) :=
+  ⟨strsep_buf s delim, strsep_token s delim hterm, strsep_token_no_delim s delim,
+   (strsep_next s delim hterm).1, (strsep_next s delim hterm).2⟩
+
+example : strsep [97, 44, 98, 0] [44, 0] = (some 2, [97, 0, 98, 0]) := by decide
+
+/-! ## memrchr (repair F16) -/
+
+/-- `memrchr(p, c, n)`: the GREATEST index below `n` whose byte equals `(unsigned char)c`
+    (`c mod 256`), NULL iff there is none -/
+theorem memrchr_spec (p : Bytes) (c : Int) (n : Nat) :
+    ((ucharOf c : Int) = c % 256) ∧
+    (∀ i, memrchr p c n = some i ↔
+      i < n ∧ p.getD i 0 = ucharOf c ∧ ∀ j, i < j → j < n → p.getD j 0 ≠ ucharOf c) ∧
+    (memrchr p c n = none ↔ ∀ j, j < n → p.getD j 0 ≠ ucharOf c) :=
+  ⟨ucharOf_mod c, fun i => memrchrFrom_some p (ucharOf c) n i, memrchrFrom_none p (ucharOf c) n⟩
+
+example : memrchr [97, 0xE9, 97, 0xE9, 98] (-23) 5 = some 3 ∧ memrchr [97, 98, 97] (97 + 256) 3 = some 2 := by
+  decide
+
+/-- the unrepaired `p[n] == c` violates it: a negative `char` value or `c ≥ 256` never matches -/
+theorem memrchr_unrepaired_violates :
+    memrchrOld [97, 0xE9] (-23) 2 = none ∧ memrchr [97, 0xE9] (-23) 2 = some 1 ∧
+    memrchrOld [97] (97 + 256) 1 = none ∧ memrchr [97] (97 + 256) 1 = some 0 := by decide
+
+example : memrchrOld [97, 98] 98 2 = some 1 := by decide
+
+/-! ## memmem -/
+
+/-- `memmem` returns the LEAST offset at which the needle occurs (0 for the empty needle) and
+    NULL iff it occurs nowhere -/
+theorem memmem_least (h q : Bytes) :
+    (∀ i, memmem h q = some i ↔ Occ h q i ∧ ∀ j, j < i → ¬ Occ h q j) ∧
+    (memmem h q = none ↔ ∀ i, ¬ Occ h q i) ∧
+    (q = [] → memmem h q = some 0) :=
+  ⟨memmem_some h q, memmem_none h q, fun hq => by subst hq; rfl⟩
+
+example : memmem [97, 98, 97, 98, 99] [97, 98, 99] = some 2 ∧ memmem [97, 98] [98, 97] = none ∧
+    Occ [97, 98, 97, 98, 99] [97, 98, 99] 2 := by
+  refine ⟨by decide, by decide, by decide, by decide⟩
+
+/-! ## mempbrk / memspn / memcspn -/
+
+/-- `mempbrk`: the first byte of `data` that is in the set -/
+theorem mempbrk_spec (d f : Bytes) :
+    (∀ i, mempbrk d f = some i ↔
+      (∃ a, d[i]? = some a ∧ a ∈ f) ∧ ∀ j, j < i → ∀ b, d[j]? = some b → ¬ b ∈ f) ∧
+    (mempbrk d f = none ↔ ∀ a ∈ d, ¬ a ∈ f) :=
+  ⟨mempbrk_some d f, mempbrk_none d f⟩
+
+example : mempbrk [97, 98, 47, 46] [46, 47] = some 2 := by decide
+
+/-- `memspn`: length of the longest prefix made of bytes of `accept` -/
+theorem memspn_spec (d a : Bytes) :
+    memspn d a ≤ d.length ∧ (∀ b ∈ d.take (memspn d a), b ∈ a) ∧
+    (memspn d a < d.length → ∃ c, d[memspn d a]? = some c ∧ ¬ c ∈ a) :=
+  UsualProofs.C14.memspn_spec d a
+
+example : memspn [97, 98, 47, 97] [98, 97] = 2 := by decide
+
+/-- `memcspn`: length of the longest prefix without a byte of `reject` -/
+theorem memcspn_spec (d r : Bytes) :
+    memcspn d r ≤ d.length ∧ (∀ j, j < memcspn d r → ∀ b, d[j]? = some b → ¬ b ∈ r) ∧
+    (memcspn d r < d.length → ∃ c, d[memcspn d r]? = some c ∧ c ∈ r) :=
+  UsualProofs.C14.memcspn_spec d r
+
+example : memcspn [97, 98, 47, 97] [47] = 2 ∧ memcspn [97, 98] [47] = 2 := by decide
+
+/-! ## basename / dirname (POSIX) -/
+
+/-- `basename`: for a path `pre ++ comp ++ tail` whose last component is `comp` (non-empty,
+    without `/`), followed only by slashes, preceded by nothing or by something ending in `/`:
+    the result is `comp`.  (When the path ends in `/` the component must fit the 256-byte static
+    buffer.) -/
+theorem basename_spec (pre comp tail : Bytes) (hc : comp ≠ [])
+    (hcs : ∀ b ∈ comp, b ≠ cSlash) (ht : ∀ b ∈ tail, b = cSlash)
+    (hpre : pre = [] ∨ pre.getLast? = some cSlash)
+    (h0 : ∀ b ∈ pre ++ comp ++ tail, b ≠ 0)
+    (hlen : tail = [] ∨ comp.length ≤ basenameBuf) :
+    basename (some (pre ++ comp ++ tail)) = comp :=
+  basename_decomp pre comp tail hc hcs ht hpre h0 hlen
+
+example : basename (some (bytesOf "/usr//lib///")) = bytesOf "lib" := by decide
+
+/-- the corner cases of POSIX: NULL, "", "/", "//", "a/", "a//b", "." -/
+theorem basename_corners :
+    basename none = bytesOf "." ∧ basename (some []) = bytesOf "." ∧
+    basename (some (bytesOf "/")) = bytesOf "/" ∧ basename (some (bytesOf "//")) = bytesOf "/" ∧
+    basename (some (bytesOf "///")) = bytesOf "/" ∧
+    basename (some (bytesOf "a/")) = bytesOf "a" ∧ basename (some (bytesOf "a//b")) = bytesOf "b" ∧
+    basename (some (bytesOf ".")) = bytesOf "." ∧ basename (some (bytesOf "..")) = bytesOf ".." := by
+  decide
+
+example : basename (some (bytesOf "a//b")) = [98] := by decide
+
+/-- `dirname`: for the same decomposition: "." when there is no directory part, "/" when the
+    directory part is all slashes, otherwise the directory part without its trailing slashes
+    (NULL/ENAMETOOLONG beyond the 1024-byte static buffer) -/
+theorem dirname_spec (pre comp tail : Bytes) (hc : comp ≠ [])
+    (hcs : ∀ b ∈ comp, b ≠ cSlash) (ht : ∀ b ∈ tail, b = cSlash)
+    (hpre : pre = [] ∨ pre.getLast? = some cSlash)
+    (h0 : ∀ b ∈ pre ++ comp ++ tail, b ≠ 0) :
+    dirname (some (pre ++ comp ++ tail)) =
+      (if pre = [] then some [cDot]
+       else if rstripSlash pre = [] then some [cSlash]
+       else if (rstripSlash pre).length > dirnameBuf then none
+       else some (rstripSlash pre)) ∧
+    ((∃ k, pre = rstripSlash pre ++ List.replicate k cSlash) ∧
+     (rstripSlash pre = [] ∨ ∃ c, (rstripSlash pre).getLast? = some c ∧ c ≠ cSlash)) :=
+  ⟨dirname_decomp pre comp tail hc hcs ht hpre h0, rstripSlash_spec pre⟩
+
+example : dirname (some (bytesOf "/usr//lib///")) = some (bytesOf "/usr") := by decide
+
+/-- the corner cases of POSIX ("//" may be "/" or "//": the code gives "/") -/
+theorem dirname_corners :
+    dirname none = some (bytesOf ".") ∧ dirname (some []) = some (bytesOf ".") ∧
+    dirname (some (bytesOf "/")) = some (bytesOf "/") ∧ dirname (some (bytesOf "//")) = some (bytesOf "/") ∧
+    dirname (some (bytesOf "a/")) = some (bytesOf ".") ∧ dirname (some (bytesOf "a//b")) = some (bytesOf "a") ∧
+    dirname (some (bytesOf "/a")) = some (bytesOf "/") ∧ dirname (some (bytesOf "a")) = some (bytesOf ".") ∧
+    dirname (some (bytesOf "//a//")) = some (bytesOf "/") ∧ dirname (some (bytesOf "a/b/c")) = some (bytesOf "a/b") := by
+  decide
+
+example : dirname (some (bytesOf "a//b")) = some [97] := by decide
+
+/-! ## strtonum (OpenBSD) -/
+
+/-- `strtonum`: a value is returned only inside `[minval, maxval]` (errstr NULL, errno kept);
+    every error returns 0; a decimal numeral with optional `-` yields its value or the
+    "too small"/"too large" verdict by comparison with the bounds -/
+theorem strtonum_spec (s : Bytes) (lo hi : Int) :
+    (∀ v, strtonum s lo hi = (v, .ok) → lo ≤ v ∧ v ≤ hi) ∧
+    ((strtonum s lo hi).2 ≠ .ok → (strtonum s lo hi).1 = 0) ∧
+    (lo > hi → strtonum s lo hi = (0, .invalid)) ∧
+    (∀ (neg : Bool) (ds t : Bytes), ds ≠ [] → (∀ d ∈ ds, isDigit d = true) →
+      lo ≤ hi → llMin ≤ lo → hi ≤ llMax →
+      strtonum ((if neg then [45] else []) ++ ds ++ 0 :: t) lo hi =
+        (let v : Int := if neg then -(Int.ofNat (digitsVal ds)) else Int.ofNat (digitsVal ds)
+         if v < lo then (0, .small) else if v > hi then (0, .large) else (v, .ok))) :=
+  ⟨fun v h => strtonum_ok_range s lo hi v h, strtonum_err_zero s lo hi,
+   fun h => by simp [strtonum, h],
+   fun neg ds t h1 h2 h3 h4 h5 => strtonum_decimal neg ds t h1 h2 lo hi h3 h4 h5⟩
+
+example : strtonum (bytesOf " -42" ++ [0]) (-100) 100 = (-42, .ok) ∧
+    strtonum (bytesOf "101" ++ [0]) (-100) 100 = (0, .large) ∧
+    strtonum (bytesOf "42x" ++ [0]) (-100) 100 = (0, .invalid) ∧
+    strtonum (bytesOf "99999999999999999999" ++ [0]) llMin llMax = (0, .large) := by decide
+
+/-! ## ffs / fls families, reallocarray -/
+
+/-- `fls(x) = ⌊log2 x⌋ + 1` for `x > 0` (and 0 for 0), for every width -/
+theorem fls_spec (w x : Nat) (hw : x < 2 ^ w) :
+    (x = 0 → fls w x = 0) ∧ (0 < x → fls w x = Nat.log2 x + 1) :=
+  ⟨fun h => by simp [fls, h], fun h => fls_eq w x h hw⟩
+
+example : fls 32 0x80000000 = 32 ∧ fls 64 1 = 1 ∧ fls 32 0 = 0 ∧ fls 32 1000 = 10 := by decide
+
+/-- `ffs(x) = k` for `x > 0`: bit `k-1` is the lowest set bit (`2^(k-1) ∣ x`, `2^k ∤ x`); 0 for 0 -/
+theorem ffs_spec (w x : Nat) (hw : x < 2 ^ w) :
+    (x = 0 → ffs w x = 0) ∧
+    (0 < x → 1 ≤ ffs w x ∧ 2 ^ (ffs w x - 1) ∣ x ∧ ¬ 2 ^ (ffs w x) ∣ x) :=
+  ⟨fun h => by simp [ffs, h], fun h => ffs_spec' w x h hw⟩
+
+example : ffs 32 0x80000000 = 32 ∧ ffs 64 1 = 1 ∧ ffs 32 0 = 0 ∧ ffs 32 1000 = 4 := by decide
+
+/-- `reallocarray(p, count, size)` calls `realloc(p, count * size)` exactly when the product
+    fits `size_t`; otherwise it fails with ENOMEM without calling `realloc` -/
+theorem reallocarray_spec (count size : Nat) (hc : count < 2 ^ 64) (hs : size < 2 ^ 64) :
+    reallocarray count size =
+      (if count * size < 2 ^ 64 then .realloc (count * size) else .enomem) := by
+  unfold reallocarray
+  rw [safeMul_iff 64 count size (by decide) hc hs]
+  by_cases h : count * size < 2 ^ 64 <;> simp [h]
+
+example : reallocarray 4294967296 4294967296 = .enomem ∧ reallocarray 4294967295 4294967297 = .realloc 18446744073709551615 := by
+  decide
+
+/-! ## inet_ntop / inet_pton -/
+
+/-- `inet_pton4(inet_ntop4(a)) = a` for every IPv4 address -/
+theorem pton_ntop4 (a b c d : Nat) (ha : a < 256) (hb : b < 256) (hc : c < 256) (hd : d < 256)
+    (t : Bytes) : pton4 (ntop4Text [a, b, c, d] ++ 0 :: t) = some [a, b, c, d] :=
+  pton4_ntop4 a b c d ha hb hc hd t
+
+example : ntop4Text [192, 168, 0, 1] = bytesOf "192.168.0.1" ∧
+    pton4 (bytesOf "192.168.0.1" ++ [0]) = some [192, 168, 0, 1] := by decide
+
+/-- whatever `inet_pton4` accepts is four octets; 256 and empty fields are rejected -/
+theorem pton4_spec (s v : Bytes) (h : pton4 s = some v) : v.length = 4 ∧ ∀ x ∈ v, x < 256 :=
+  pton4_sound s v h
+
+example : pton4 (bytesOf "1.2.3.256" ++ [0]) = none ∧ pton4 (bytesOf "1..2.3" ++ [0]) = none ∧
+    pton4 (bytesOf "1.2.3" ++ [0]) = none ∧ pton4 (bytesOf "1.2.3.4.5" ++ [0]) = none ∧
+    pton4 (bytesOf "255.00.0.0" ++ [0]) = some [255, 0, 0, 0] := by decide
+
+/-- `inet_ntop4/6` size handling: ENOSPC (nothing written) iff text + terminator do not fit;
+    otherwise exactly text + NUL is stored and the rest of the buffer is untouched -/
+theorem ntop_store_spec (text dst : Bytes) (size : Nat) (hsz : size ≤ dst.length)
+    (h0 : ∀ b ∈ text, b ≠ 0) :
+    (text.length + 1 > size → ntopStore text dst size = none) ∧
+    (text.length + 1 ≤ size →
+      ntopStore text dst size = some (text ++ [0] ++ dst.drop (text.length + 1))) :=
+  ntopStore_spec text dst size hsz h0
+
+example : ntop4 [127, 0, 0, 1] (List.replicate 12 0xAA) 10 = some (bytesOf "127.0.0.1" ++ [0, 0xAA, 0xAA]) ∧
+    ntop4 [127, 0, 0, 1] (List.replicate 12 0xAA) 9 = none := by decide
+
+/-- `inet_ntop6` canonical `::` placement: the run of zero words that is abbreviated has length
+    ≥ 2, no run of zero words is longer, and among the longest it is the leftmost; nothing is
+    abbreviated only when no two adjacent words are zero -/
+theorem ntop6_canonical (ws : List Nat) (h8 : ws.length = 8) :
+    match bestRun ws with
+    | some (b, l) =>
+      2 ≤ l ∧ ZeroRun ws b l ∧
+      ∀ b' l', 0 < l' → ZeroRun ws b' l' → l' ≤ l ∧ (l' = l → b ≤ b')
+    | none => ∀ b', ¬ ZeroRun ws b' 2 :=
+  ntop6_run ws h8
+
+example : bestRun [1, 0, 0, 2, 0, 0, 3, 4] = some (1, 2) ∧ bestRun [1, 0, 2, 0, 3, 0, 4, 0] = none ∧
+    ntop6Text [0x20, 0x01, 0x0d, 0xb8, 0, 0, 0, 0, 0, 1, 0, 0, 0, 0, 0, 1] = bytesOf "2001:db8::1:0:0:1" ∧
+    ntop6Text [0, 0, 0, 0, 0, 0, 0, 0, 0, 0, 0xff, 0xff, 1, 2, 3, 4] = bytesOf "::ffff:1.2.3.4" ∧
+    ntop6Text (List.replicate 16 0) = bytesOf "::" := by decide
+
+/-- PARTIAL.  Proved: whatever `inet_pton6` accepts is sixteen bytes; concrete forms below.
+    Not proved: the full statement "pton6 accepts exactly the RFC 4291 §2.2 text forms (1–4 hex
+    digits per group, one `::`, optional dotted-quad tail) and yields their value", and the round
+    trip `pton6 (ntop6Text a) = some a` (checked by execution on all 2^8 zero/non-zero shapes ×
+    value classes in every run of the check). -/
+theorem pton6_spec_partial (s v : Bytes) (h : pton6 s = some v) : v.length = 16 :=
+  pton6_sound s v h
+
+example : pton6 (bytesOf "2001:db8::1:0:0:1" ++ [0]) = some [0x20, 0x01, 0x0d, 0xb8, 0, 0, 0, 0, 0, 1, 0, 0, 0, 0, 0, 1] ∧
+    pton6 (bytesOf "::ffff:1.2.3.4" ++ [0]) = some [0, 0, 0, 0, 0, 0, 0, 0, 0, 0, 0xff, 0xff, 1, 2, 3, 4] ∧
+    pton6 (bytesOf "1::2::3" ++ [0]) = none ∧ pton6 (bytesOf "12345::" ++ [0]) = none ∧
+    pton6 (bytesOf "1:2:3:4:5:6:7:8:9" ++ [0]) = none ∧ pton6 (bytesOf "::" ++ [0]) = some (List.replicate 16 0) := by
+  decide
+
+/-! ## asprintf / vasprintf / cx_vasprintf (repair F06) -/
+
+/-- for formatted output of ANY length `len` the two-pass logic returns `len` and a block
+    holding exactly the text and its terminator — on both sides of the 128-byte buffer -/
+theorem vasprintf_any_length (fmt : Nat → Bytes) (len : Nat) (hf : (fmt len).length = len) :
+    cxVasprintf (fmt len) = ((len : Int), some (fmt len ++ [0])) := by
+  rw [cxVasprintf_eq, hf]
+
+example : cxVasprintf (List.replicate 127 65) = (127, some (List.replicate 127 65 ++ [0])) ∧
+    cxVasprintf (List.replicate 128 65) = (128, some (List.replicate 128 65 ++ [0])) ∧
+    cxVasprintf (List.replicate 129 65) = (129, some (List.replicate 129 65 ++ [0])) :=
+  ⟨vasprintf_any_length (fun n => List.replicate n 65) 127 (by simp),
+   vasprintf_any_length (fun n => List.replicate n 65) 128 (by simp),
+   vasprintf_any_length (fun n => List.replicate n 65) 129 (by simp)⟩
+
+/-- the unrepaired code (second `vsnprintf` on a consumed `va_list`) violates it for every
+    text of 128 bytes or more -/
+theorem vasprintf_unrepaired_violates (out : Bytes) (h : 128 ≤ out.length) :
+    cxVasprintfOld out [] ≠ ((out.length : Int), some (out ++ [0])) := by
+  rw [cxVasprintfOld_wrong out h]
+  intro hc; cases hc
+
+example : cxVasprintfOld (List.replicate 128 65) [] ≠ (128, some (List.replicate 128 65 ++ [0])) := by
+  have := vasprintf_unrepaired_violates (List.replicate 128 65) (by simp)
+  simpa using this
+
+/-! ## getline (repair F26), mbsnrtowcs (repair F27), timegm -/
+
+/-- one `getline` call: -1 exactly at end of file; otherwise returns the length of the next line
+    (up to and including the first newline, NUL bytes included), stores it NUL-terminated,
+    advances the stream by exactly that line, in a buffer large enough for line + terminator;
+    a newline can only be the last byte of the line -/
+theorem getline_spec (file : Bytes) (cap : Option Nat) :
+    (file = [] → (getline file cap).ret = -1 ∧ (getline file cap).rest = file) ∧
+    (file ≠ [] →
+      (getline file cap).ret = ((nextLine file).length : Int) ∧
+      (getline file cap).line = nextLine file ++ [0] ∧
+      file = nextLine file ++ (getline file cap).rest ∧
+      (nextLine file).length + 1 ≤ (getline file cap).size) ∧
+    ((∀ b ∈ (nextLine file).dropLast, b ≠ 10) ∧
+     ((nextLine file).length < file.length → (nextLine file).getLast? = some 10)) :=
+  ⟨(getline_spec' file cap).1, (getline_spec' file cap).2, nextLine_newline file⟩
+
+example : getline [0, 97, 10, 98] none = ⟨3, [0, 97, 10, 0], 512, [98]⟩ ∧
+    getline [98] (some 600) = ⟨1, [98, 0], 600, []⟩ ∧ (getline [] none).ret = -1 := by decide
+
+/-- `mbsnrtowcs`: the destination array keeps its size (at most `dstlen` wide characters are
+    stored), and with a NULL destination `*src` is not assigned — for ANY `mbrtowc` -/
+theorem mbsnrtowcs_spec (mbr : Bytes → MbRes) (src : Bytes) (srclen : Nat) :
+    (∀ d, (mbsnrtowcs mbr src srclen (some d)).dst.length = d.length) ∧
+    (mbsnrtowcs mbr src srclen none).srcp = some 0 :=
+  ⟨mbsnrtowcs_dst_length mbr src srclen, (mbsnrtowcs_null_dst mbr src srclen).1⟩
+
+example : mbsnrtowcs utf8Mbr [97, 0xc3, 0xa9, 98] 4 (some [7, 7]) = ⟨some 2, some 3, [97, 0xe9]⟩ ∧
+    mbsnrtowcs utf8Mbr [97, 0xff] 2 (some [7, 7, 7]) = ⟨none, some 1, [97, 7, 7]⟩ ∧
+    mbsnrtowcs utf8Mbr [97, 0, 98] 3 (some [7, 7, 7]) = ⟨some 1, none, [97, 0, 7]⟩ := by decide
+
+/-- the specification `timegm` is compared with: `daysFromCivil` IS the proleptic-Gregorian
+    day count from 1970-01-01 (it is 0 there and grows by one per day across month and year
+    ends with the Gregorian leap rule), and `timegm` = days × 86400 + time of day -/
+theorem timegm_spec :
+    daysFromCivil 1970 1 1 = 0 ∧
+    (∀ y m d : Int, daysFromCivil y m (d + 1) = daysFromCivil y m d + 1) ∧
+    (∀ y m : Int, 1 ≤ m → m ≤ 11 →
+      daysFromCivil y (m + 1) 1 = daysFromCivil y m (daysInMonth y m) + 1) ∧
+    (∀ y : Int, daysFromCivil (y + 1) 1 1 = daysFromCivil y 12 31 + 1) ∧
+    (∀ y mon d h mi s : Int, 1 ≤ mon → mon ≤ 12 →
+      (timegm y mon d h mi s).secs = daysFromCivil y mon d * 86400 + h * 3600 + mi * 60 + s) :=
+  ⟨dfc_epoch, dfc_next_day, dfc_next_month, dfc_next_year, timegm_secs⟩
+
+example : (timegm 2024 2 29 12 0 0).secs = 1709208000 ∧ (timegm 2024 2 29 12 0 0).wday = 4 ∧
+    daysInMonth 2024 2 = 29 ∧ daysInMonth 1900 2 = 28 ∧ daysInMonth 2000 2 = 29 := by decide
+
+/-! ## fnmatch -/
+
+/-- soundness and completeness of the reference matcher against the declarative glob semantics
+    `Matches` (literals, `?`, `*`, bracket expressions, FNM_PATHNAME, FNM_NOESCAPE via the
+    tokenizer, FNM_CASEFOLD, FNM_LEADING_DIR), and `fnmatchSpec` is that matcher whenever
+    FNM_PERIOD is off.  (About the REFERENCE: the single-retry loop of the code is mirrored by
+    `wfnmatch` and compared with it on every run, not proved equal; with FNM_PERIOD the mirror is
+    the specification.) -/
+theorem fnmatch_sound_complete (fl : FnFlags) (pat str : List Nat) :
+    (∀ ts s, refMatch fl ts s = true ↔ Matches fl ts s) ∧
+    (fl.period = false →
+      (fnmatchSpec fl pat str = 0 ↔ Matches fl (tokenize fl (pat.length + 1) pat) str) ∧
+      (fnmatchSpec fl pat str = 0 ∨ fnmatchSpec fl pat str = 1)) := by
+  refine ⟨refMatch_iff fl, fun hp => ?_⟩
+  unfold fnmatchSpec refFnmatch
+  simp only [hp, Bool.false_eq_true, if_false]
+  constructor
+  · rw [← refMatch_iff]
+    split <;> simp_all
+  · split <;> simp
+
+example : Matches (FnFlags.ofNat 1) [.star, .lit 46, .lit 99] (bytesOf "ab.c") ∧
+    ¬ Matches (FnFlags.ofNat 1) [.star, .lit 46, .lit 99] (bytesOf "a/b.c") ∧
+    tokenize (FnFlags.ofNat 0) 9 (bytesOf "[!a-c]*\\?") =
+      [.cls true [.range 97 99], .star, .lit 63] ∧
+    fnmatchSpec (FnFlags.ofNat 0) (bytesOf "[!a-c]*\\?") (bytesOf "xyz?") = 0 ∧
+    fnmatchSpec (FnFlags.ofNat 16) (bytesOf "a*") (bytesOf "ab/c") = 0 ∧
+    wfnmatch (FnFlags.ofNat 4) (bytesOf "*.c") (bytesOf ".c") = 1 := by
+  refine ⟨?_, ?_, by decide, by decide, by decide, by decide⟩
+  · rw [← refMatch_iff]; decide
+  · rw [← refMatch_iff]; decide
+
+end UsualProps.C14
